@@ -24,6 +24,7 @@ import base64
 import json
 import os
 import random
+import threading
 import time
 from pathlib import Path
 
@@ -68,7 +69,7 @@ TRACE_CFG = ("SPECIFICATION TraceSpec\nCONSTRAINT TraceAccept\nCONSTANTS\n Kinds
 # ------------------------------------------------------------------------------------------ TLC theorems
 def _theorems(ctx):
     ev, v = ctx.ev, ctx.v
-    kinds = KINDS if ctx.thorough else QUICK_KINDS
+    kinds = KINDS if ctx.thorough else GEN_KINDS
     r = run_tlc("Surface", _cfg(kinds, ENTRIES, 1, True), scratch=ctx.scratch, timeout=1500, heap="6g")
     ev.tlc(f"Surface: surface / isolation / CLI / wrap-class invariants + termination, {len(kinds)} kinds x 8 entry "
            "points x every stage x 8 classes, 1 environment raise, local recovery allowed", r)
@@ -82,7 +83,7 @@ def _theorems(ctx):
             v.violation(what=f"Surface.tla (2 faults): {r.violated} violated on the specification", observed=r.trace[-2:])
     sens = [("NoWrapper", "Inv_Surface"), ("EntryReraises", "Inv_MemberIsolation"), ("WrongLegacyClass", "Inv_WrapClass"),
             ("CliNoCatch", None)]
-    for mut, want in (sens if ctx.thorough else sens[:2]):
+    for mut, want in (sens if ctx.thorough else sens[:1]):
         rs = run_tlc("Surface", _cfg(["docx", "doc"], ENTRIES, 1, False, mut=[mut], live=False), scratch=ctx.scratch,
                      expect_fail=True, timeout=600)
         ev.tlc(f"Surface sensitivity: mutation {mut} must violate an invariant", rs, note="expected violation")
@@ -97,6 +98,17 @@ def _theorems(ctx):
 
 
 # ------------------------------------------------------------------------------------- SurfaceGen cases
+GEN_KINDS = ["docx", "doc", "mbox", "mhtml", "html", "archive"]
+
+
+def _rep(k):
+    """the specification treats kinds uniformly apart from LegacyKinds / MultiKinds / SubCalls membership:
+    SurfaceGen enumerates one representative per class, a concrete kind is looked up under its representative"""
+    if k in ("-", "archive", "mhtml", "html", "mbox"):
+        return k
+    return "doc" if k in LEGACY else "docx"
+
+
 def _plan_sig(plan):
     return tuple((f["t"], f["k"]) for f in plan), max([f["m"] for f in plan] + [0]), plan[-1]["ny"]
 
@@ -191,9 +203,8 @@ def _strip(evs):
     return [{k: v for k, v in e.items() if k not in ("w", "ay")} for e in evs]
 
 
-def _crash_points(ctx, pool, cases, kinds):
+def _crash_runs(ctx, pool, kinds):
     rng = random.Random(ctx.seed * 7919 + 1)
-    v, ev = ctx.v, ctx.ev
     fam = sorted(FAMILY_CLASSES)
     # ---- dry runs: one per (entry, kind): where do the layer functions execute, what is the plan
     dry_jobs = []
@@ -279,6 +290,12 @@ def _crash_points(ctx, pool, cases, kinds):
     ires = pool.run([{k2: v2 for k2, v2 in j.items() if not k2.startswith("_")} for j in inj_jobs],
                     progress=lambda a, b: ctx.log(f"  injections {a}/{b}") if a % 5000 == 0 else None)
     ctx.log(f"injection runs done in {time.time() - t0:.1f}s")
+    ctx.ev.set(line_stages=n_lines)
+    return inj_jobs, ires
+
+
+def _crash_compare(ctx, cases, inj_jobs, ires):
+    v, ev = ctx.v, ctx.ev
     traces, meta = [], []
     n_pred = n_local = n_loop = n_notfired = n_nopred = 0
     for j, r in zip(inj_jobs, ires):
@@ -298,11 +315,11 @@ def _crash_points(ctx, pool, cases, kinds):
             continue
         # ---- compare with the outcome(s) SurfaceGen lists for this case
         if j.get("_poison"):
-            plan = _trace_shape(evs)
+            plan = tuple((t, _rep(k)) for t, k in _trace_shape(evs))
             sig = (plan, 0, 1)
             fault = (1, "Cli", "try", "Other", min(sum(1 for e in evs if e["a"] == "Yield"), 3), 0)
         else:
-            plan = j["_plan"]
+            plan = tuple((t, _rep(k)) for t, k in j["_plan"])
             mm = j["_members"] if j["entry"] in LOOP_ENTRIES else 0
             leaf_ny = 2 if plan[-1][1] in MULTI else 1
             sig = (plan, mm, leaf_ny)
@@ -311,9 +328,13 @@ def _crash_points(ctx, pool, cases, kinds):
             n_notfired += 1
             continue
         d = fault[0]
-        absorbed_locally = any(e["a"] == "Absorb" and e["d"] == d and sig[0][d - 1][0] in ("Extractor", "ReadFile")
-                               for e in evs)
-        if fault[1] == "ArchiveLoop" or "ArchiveLoop" in [t for t, _ in sig[0][:d]] and fault[1] == "ArchiveLoop":
+        # the layer recovered by itself (an inner handler: read_html's fallback, read_pdf's decrypt probe, the
+        # attachment router's MIME fallback): outcome is the layer's business, the flow is validated by TLC
+        ri = next(i for i, e in enumerate(evs) if e["a"] == "Raise")
+        nxt = evs[ri + 1] if ri + 1 < len(evs) else {"a": ""}
+        absorbed_locally = (nxt["a"] == "Absorb" and nxt["d"] == d
+                            and (fault[1] in ("Extractor", "ReadFile") or fault[2] == "pro"))
+        if fault[1] == "ArchiveLoop":
             n_loop += 1
             continue                      # DON'T-CARE inside the archive loop: flow validated by TLC only
         if absorbed_locally:
@@ -340,7 +361,7 @@ def _crash_points(ctx, pool, cases, kinds):
             f"{n_loop} inside the archive loop (flow only), {n_nopred} without an enumerated case (flow only), "
             f"{n_notfired} not reached")
     ev.set(crash_points={"injections": len(inj_jobs), "compared_with_spec_outcome": n_pred, "local_recovery": n_local,
-                         "archive_loop_internal": n_loop, "no_enumerated_case": n_nopred, "not_fired": n_notfired, "line_stages": n_lines})
+                         "archive_loop_internal": n_loop, "no_enumerated_case": n_nopred, "not_fired": n_notfired})
     return traces, meta
 
 
@@ -500,10 +521,17 @@ def _fuzz_jobs(ctx, kinds_all):
 def run(ctx):
     ev, v = ctx.ev, ctx.v
     t_start = time.time()
-    _theorems(ctx)
     kinds_cp = KINDS if ctx.thorough else QUICK_KINDS
-    cases = _gen_cases(ctx, kinds_cp)
-    ctx.log(f"TLC done at {time.time() - t_start:.0f}s")
+    box = {}
+
+    def tlc_side():
+        try:
+            _theorems(ctx)
+            box["cases"] = _gen_cases(ctx, GEN_KINDS)
+        except BaseException as e:          # noqa: re-raised in the main thread
+            box["err"] = e
+    th = threading.Thread(target=tlc_side)
+    th.start()
 
     with Pool(ctx.scratch / "pool", n=WORKERS) as pool:
         # binding check: the layer functions exist and have a wrapper
@@ -514,14 +542,19 @@ def run(ctx):
         names = {lf["name"] for lf in pool.layers}
         if len([lf for lf in pool.layers if lf["t"] == "Extractor"]) < 21:
             raise MachineryError(f"expected 21 extractor generators, found {sorted(names)}")
-        cp_traces, cp_meta = _crash_points(ctx, pool, cases, kinds_cp)
-        ctx.log(f"crash points done at {time.time() - t_start:.0f}s")
+        cp_jobs, cp_res = _crash_runs(ctx, pool, kinds_cp)
+        ctx.log(f"crash-point runs done at {time.time() - t_start:.0f}s")
         fz_jobs, sub_jobs = _fuzz_jobs(ctx, KINDS)
         ctx.log(f"fuzzing: {len(fz_jobs)} executions in process + {len(sub_jobs)} CLI subprocesses")
         t0 = time.time()
         fres = pool.run(fz_jobs + sub_jobs,
                         progress=lambda a, b: ctx.log(f"  fuzz {a}/{b}") if a % 5000 == 0 else None)
         ctx.log(f"fuzz executions done in {time.time() - t0:.1f}s")
+    th.join()
+    if "err" in box:
+        raise box["err"]
+    ctx.log(f"TLC (theorems, sensitivity, SurfaceGen) done at {time.time() - t_start:.0f}s")
+    cp_traces, cp_meta = _crash_compare(ctx, box["cases"], cp_jobs, cp_res)
     fz_traces, fz_meta = [], []
     for j, r in zip(fz_jobs + sub_jobs, fres):
         if "machinery" in r:
@@ -630,6 +663,9 @@ def _explain(bad, m, r):
     head = f"[{d.get('entry')}/{d.get('kind')}] {inp}: "
     if a == "Timeout":
         return head + "the execution did not finish within its CPU / wall budget and was killed (termination clause)"
+    if a == "LoopOverrun":
+        return head + (f"a `while` loop of the library did not stop within 256 * len(input) + 2^20 iterations: "
+                       f"{r.get('loop_over')} (termination clause, progress monitor)")
     if a == "WorkerDied":
         return head + f"the worker process died (rc={r.get('rc')}) while extracting"
     if a == "Unwind":
